@@ -862,6 +862,23 @@ fn run_tests(
             ..
         } => {
             if attributes.skip() {
+                if opts.update {
+                    // A skipped test is not run, but it must keep its place in the rewritten file.
+                    let input = String::from_utf8(input.clone()).unwrap();
+                    let output = if attributes.cst {
+                        output.clone()
+                    } else {
+                        format_sexp(&output, 0)
+                    };
+                    corrected_entries.push(TestCorrection::new(
+                        &name,
+                        input,
+                        output,
+                        &attributes_str,
+                        header_delim_len,
+                        divider_delim_len,
+                    ));
+                }
                 test_summary.parse_results.add_case(TestResult {
                     name,
                     info: TestInfo::ParseTest {
@@ -875,6 +892,23 @@ fn run_tests(
             }
 
             if !attributes.platform {
+                if opts.update {
+                    // Likewise for a test that is meant for another platform.
+                    let input = String::from_utf8(input.clone()).unwrap();
+                    let output = if attributes.cst {
+                        output.clone()
+                    } else {
+                        format_sexp(&output, 0)
+                    };
+                    corrected_entries.push(TestCorrection::new(
+                        &name,
+                        input,
+                        output,
+                        &attributes_str,
+                        header_delim_len,
+                        divider_delim_len,
+                    ));
+                }
                 test_summary.parse_results.add_case(TestResult {
                     name,
                     info: TestInfo::ParseTest {
